@@ -48,6 +48,12 @@ class Harness(cm.BaseB):
 
     def cases(self, chunk):
         if chunk["k"] == "opt":
+            # the mode name as seen by a complete transfer call (also one that names no wells at all)
+            for dev in ("EvoWorklist", "FluentWorklist"):
+                for mode in ("auto", "source", "destination", "Source", "", "both", "AUTO", "column"):
+                    for nw in (0, 1, 2):
+                        for st in (True, False):
+                            yield {"k": "tr", "dev": dev, "mode": mode, "nw": nw, "src_trough": st}
             for st in (True, False, "generic"):
                 for dt in (True, False, "generic"):
                     for mode in ("auto", "source", "destination", "Source", "", {"$none": 1}, "both", "AUTO"):
@@ -68,6 +74,10 @@ class Harness(cm.BaseB):
                     if ties and n < 2:
                         continue
                     yield {"k": "part", "s": [c[0] for c in combo], "d": [c[1] for c in combo], "ties": ties, "mode": mode}
+                    if n <= 2 and not ties:
+                        # the same triples handed over as tuples / numpy arrays / one-shot iterators
+                        for cont in ("tuple", "array", "iter"):
+                            yield {"k": "part", "s": [c[0] for c in combo], "d": [c[1] for c in combo], "ties": ties, "mode": mode, "cont": cont}
         if n == 1:
             for mode in ("auto", "Source", "", "column", {"$none": 1}):
                 yield {"k": "part", "s": ["A01"], "d": ["B01"], "ties": False, "mode": mode}
@@ -75,12 +85,15 @@ class Harness(cm.BaseB):
     def one(self, case):
         if case["k"] == "opt":
             return self.one_opt(case)
+        if case["k"] == "tr":
+            return self.one_tr(case)
         s, d, mode = case["s"], case["d"], case["mode"]
         if isinstance(mode, dict):
             mode = None
         v = [5.0] * len(s) if case["ties"] else [float(i + 1) for i in range(len(s))]
+        wrap = {"tuple": tuple, "array": __import__("numpy").array, "iter": iter}.get(case.get("cont"), list)
         try:
-            groups = partition_by_column(list(s), list(d), list(v), mode)
+            groups = partition_by_column(wrap(s), wrap(d), wrap(v), mode)
         except Exception as e:
             if mode in ("source", "destination"):
                 return "raised", None, [("C18/valid-call-raised", f"{type(e).__name__}: {e}")]
@@ -115,6 +128,26 @@ class Harness(cm.BaseB):
             V.append(("C18/triples-not-preserved", f"{mode}: input {want} -> output {sorted(got)}"))
         nontriv = len(groups) > 1 or got != list(zip(s, d, v))
         return f"{mode}:{min(len(groups), 4)}groups", (repr((s, d, case['ties'], mode)) if nontriv else None), V
+
+    def one_tr(self, case):
+        from ..world import rt
+
+        wl = getattr(rt, case["dev"])(max_volume=950)
+        src = build_labware(trough("S", 4, 2, 0, 1000, [500, 500]) if case["src_trough"] else plate("S", 4, 2, 0, 1000, 500))
+        dst = build_labware(plate("D", 4, 2, 0, 1000, 0))
+        wells = ["A01", "B02"][: case["nw"]]
+        mode = case["mode"]
+        valid = mode in ("auto", "source", "destination")
+        try:
+            wl.transfer(src, wells, dst, wells, [10.0] * case["nw"], partition_by=mode)
+        except Exception as e:
+            if valid:
+                return "tr:raised", None, [("C18/valid-call-raised", f"{case['dev']}.transfer of {case['nw']} wells with partition_by={mode!r}: {type(e).__name__}: {e}")]
+            recs = [r for r in wl if r[0] in "AD"]
+            return "tr:invalid:raised", repr(case), ([("C18/invalid-mode-accepted", f"records {recs} were emitted before the refusal")] if recs else [])
+        if not valid:
+            return "tr:invalid:accepted", repr(case), [("C18/invalid-mode-accepted", f"{case['dev']}.transfer of {case['nw']} wells with partition_by={mode!r} returned normally")]
+        return "tr:ok", repr(case), []
 
     def one_opt(self, case):
         mode = None if isinstance(case["mode"], dict) else case["mode"]
